@@ -68,7 +68,11 @@ def run_case(case):
         if r is entries.ABSENT:
             return {"status": "absent"}
         why = []
-        ok = tspec.conforms(r, spec, why)
+        tspec.TUPLE_EXTRA_OK[0] = entry == "addition" or bool((opts or {}).get("addition"))
+        try:
+            ok = tspec.conforms(r, spec, why)
+        finally:
+            tspec.TUPLE_EXTRA_OK[0] = False
         changed = not oracle.equal(r, x) if not _one_shot(x) else True
         return {"status": "ok", "conforms": ok, "why": why[0] if why else None, "result": r, "changed": changed}
     if out[0] == "perr":
